@@ -150,45 +150,3 @@ Ltac bool_hyps :=
 Ltac upd_cases j me :=
   unfold upd; destruct (Nat.eqb_spec j me); [subst j|].
 
-Section Step.
-Variable P : params.
-
-Ltac lock_fin :=
-  repeat match goal with
-  | H : (_ && _)%bool = true |- _ => apply andb_true_iff in H; destruct H
-  | H : free ?l = true |- _ => apply free_none in H
-  | H : free ?l = false |- _ => apply free_some in H; destruct H as [? H]
-  end;
-  cbn in *;
-  repeat match goal with
-  | H : _ /\ _ |- _ => destruct H
-  end;
-  try solve [ intuition (try discriminate; try congruence) ].
-
-Theorem L0_step : forall st c st' l, L0 st -> step P st c = Some (st', l) -> L0 st'.
-Proof.
-  intros st c st' l [[R1 R2] [O1 O2] [D1 D2]] Hs.
-  unfold step in Hs. destruct c as [e | me e].
-  - destruct (io_step P (sh st) (io st) e) as [[[s' i'] l']|] eqn:E; [|discriminate].
-    inv_some Hs.
-    unfold io_step, sc_step, at_step, fl_step, sc_enter, io_after_read in E.
-    destruct st as [s i w]. cbn [sh io wk] in *.
-    destruct i as [pc ir iw iws its icur icomp]. cbn [ipc] in *.
-    destruct pc; break_step E; inv_some E;
-      (split; split; cbn; [| intro j; specialize (R2 j); specialize (O2 j); specialize (D2 j) | | intro j; specialize (R2 j); specialize (O2 j); specialize (D2 j) | | intro j; specialize (R2 j); specialize (O2 j); specialize (D2 j)]);
-      lock_fin.
-  - destruct (Nat.ltb me (p_nw P)) eqn:Hme; [|discriminate].
-    destruct (wk_step P me (sh st) (wk st me) e) as [[[s' w'] l']|] eqn:E; [|discriminate].
-    inv_some Hs.
-    unfold wk_step, sc_step, at_step, fl_step, sc_enter, wk_next_write in E.
-    destruct st as [s i w]. cbn [sh io wk] in *.
-    pose proof (R2 me) as R2m. pose proof (O2 me) as O2m. pose proof (D2 me) as D2m.
-    destruct (w me) as [pc cur idx off cl] eqn:Hw. cbn [wpc] in *.
-    destruct pc; break_step E; inv_some E;
-      (split; split; cbn;
-       [| intro j; unfold upd; destruct (Nat.eqb_spec j me); [subst j|specialize (R2 j)]
-        | | intro j; unfold upd; destruct (Nat.eqb_spec j me); [subst j|specialize (O2 j)]
-        | | intro j; unfold upd; destruct (Nat.eqb_spec j me); [subst j|specialize (D2 j)]]);
-      lock_fin.
-Qed.
-End Step.
